@@ -176,7 +176,10 @@ def kernel_case(rec, n, levels, mask, bypass, log, seed, aff=0):
 # ------------------------------------------------------------------ API
 COLS = [((0, 1, 3), (5, 3, 0)), ((0, 2, 5), (1, 2, 3)), ((4, 2, 1), (5, 4, 0)), ((1, 3, 4), (4, 3, 1)),
         ((0, 1, 2), (0, 1, 2)), ((5, 1, 0), (0, 4, 5)), ((2, 3, 5), (3, 2, 0)), ((0, 3, 4), (5, 2, 1))]
-API_LEVELS = [(0.5, 1.5, 4.0), (6.0, 2.0, -1.0, 3.0), (1.0,), (0.0, 5.0, 2.5)]
+API_LEVELS = [(0.5, 1.5, 4.0), (6.0, 2.0, -1.0, 3.0), (1.0,), (0.0, 5.0, 2.5),
+              # one unit in the last place beyond / inside the possible end values (linear, double precision only)
+              tuple(float(np.nextafter(v, np.inf)) for v in (3.0, 4.0, 5.0)) + tuple(float(np.nextafter(v, -np.inf)) for v in (0.0, 1.0, 5.0))]
+ULP_LEVELS = 4
 
 
 _API_GRID = {}
@@ -199,6 +202,11 @@ def api_case(rec, ci, li, tkind, suffix, mask, method, layout, chunk, seed, prec
             g = _API_GRID["g"] = Grid(ds, coords={"Z": {"center": "zc", "outer": "zo"}}, periodic=False, autoparse_metadata=False)
     profs = COLS[ci]
     levels = API_LEVELS[li]
+    if li == ULP_LEVELS and (method != "linear" or prec not in ("f8", "shared")):
+        return
+    if prec == "shared":
+        # one 1-D profile (without the extra dimension of the data) serves both columns
+        profs = (profs[0], profs[0])
     phi = np.array([[1.0, 2.0, 4.0], [10.0 + seed % 2, -20.0, 40.0]])
     da = xr.DataArray(phi.astype(np.float32) if prec == "mixed" else phi, dims=["x", "zc"], name="temp")
     thv = np.array(profs, dtype=float)
@@ -208,10 +216,12 @@ def api_case(rec, ci, li, tkind, suffix, mask, method, layout, chunk, seed, prec
     elif prec == "mixed":
         thv, lvv = thv * scale, lvv * scale
     td = xr.DataArray(thv, dims=["x", "zc"], name="dens")
+    if prec == "shared":
+        td = td.isel(x=0, drop=True)
     if layout == "zx":
-        da, td = da.transpose("zc", "x"), td.transpose("zc", "x")
+        da, td = da.transpose("zc", "x"), td.transpose(*reversed(td.dims))
     if chunk:
-        da, td = da.chunk({"x": tuple(chunk)}), td.chunk({"x": tuple(chunk)})
+        da, td = da.chunk({"x": tuple(chunk)}), (td.chunk({"x": tuple(chunk)}) if "x" in td.dims else td)
     kw = dict(target_data=td, mask_edges=mask, method=method)
     if suffix is not None:
         kw["suffix"] = suffix
@@ -256,44 +266,54 @@ def api_case(rec, ci, li, tkind, suffix, mask, method, layout, chunk, seed, prec
                     return
                 continue
             e = float(sum(float(x) * p for x, p in zip(w, phi[c])))
-            if np.isnan(got[c, k]) or not np.isclose(got[c, k], e, rtol=1e-9 if prec == "f8" else 1e-5, atol=1e-9 if prec == "f8" else 1e-5):
-                cls = "values" + (":mixed-precision" if prec != "f8" else "") + (":masked-on-end-value" if np.isnan(got[c, k]) else "") + (":decreasing-profile" if profs[c][0] > profs[c][-1] else "") + (":column-mixup" if c == 1 else "")
+            if np.isnan(got[c, k]) or not np.isclose(got[c, k], e, rtol=1e-9 if prec != "mixed" else 1e-5, atol=1e-9 if prec != "mixed" else 1e-5):
+                cls = "values" + (":mixed-precision" if prec == "mixed" else ":shared-profile" if prec == "shared" else "") + (":masked-on-end-value" if np.isnan(got[c, k]) else "") + (":decreasing-profile" if profs[c][0] > profs[c][-1] else "") + (":column-mixup" if c == 1 else "")
                 rec.violation("api", cls, dict(case, column=c, k=k), e, float(got[c, k]))
                 return
 
 
 def api_default_td(rec, seed):
-    """target_data omitted: the axis coordinate of the dataset is used"""
+    """target_data omitted: the axis coordinate of the dataset is used (increasing or decreasing, the axis
+    dimension of the data last, first or in the middle)"""
     from xgcm import Grid
 
-    case = dict(level="api-default")
-    nz = 3
-    ds = xr.Dataset(coords={"zc": ("zc", np.array([0.5, 1.5, 3.5])), "zo": ("zo", np.array([0.0, 1.0, 2.0, 5.0])), "x": ("x", [0, 1])})
-    with warnings.catch_warnings():
-        warnings.simplefilter("ignore")
-        g = Grid(ds, coords={"Z": {"center": "zc", "outer": "zo"}}, periodic=False, autoparse_metadata=False)
-    phi = np.array([[1.0, 2.0, 4.0], [10.0, -20.0, 40.0]])
-    da = xr.DataArray(phi, dims=["x", "zc"], name="temp", coords={"zc": ds.zc})
-    levels = (0.5, 1.0, 2.5, 3.5, 4.0)
-    rec.case(("api-default",), True, sample=case)
-    try:
-        with warnings.catch_warnings():
-            warnings.simplefilter("ignore")
-            r = g.transform(da, "Z", np.array(levels))
-    except Exception as e:
-        rec.violation("api", "default-target-data-raise:" + exc_sig(e), case, "array", f"{type(e).__name__}: {e}"[:200])
-        return
-    if set(r.dims) != {"x", "zc"}:
-        rec.violation("api", "default-target-data-dims", case, ["x", "zc"], list(r.dims))
-        return
-    got = r.transpose("x", "zc").values
-    for c in range(2):
-        for k, l in enumerate(levels):
-            w = R.interp_linear((0.5, 1.5, 3.5), l, True)
-            e = np.nan if w is None else float(sum(float(x) * p for x, p in zip(w, phi[c])))
-            if not np.isclose(got[c, k], e, equal_nan=True):
-                rec.violation("api", "default-target-data-values", case, e, float(got[c, k]))
-                return
+    for zc_vals, zo_vals in (((0.5, 1.5, 3.5), (0.0, 1.0, 2.0, 5.0)), ((3.5, 1.5, 0.5), (5.0, 2.0, 1.0, 0.0))):
+        for dims in (("x", "zc"), ("zc", "x"), ("x", "zc", "y")):
+            for mask in (True, False):
+                case = dict(level="api-default", zc=list(zc_vals), dims=list(dims), mask=mask)
+                ds = xr.Dataset(coords={"zc": ("zc", np.array(zc_vals)), "zo": ("zo", np.array(zo_vals)), "x": ("x", [0, 1])})
+                with warnings.catch_warnings():
+                    warnings.simplefilter("ignore")
+                    g = Grid(ds, coords={"Z": {"center": "zc", "outer": "zo"}}, periodic=False, autoparse_metadata=False)
+                phi = np.array([[1.0, 2.0, 4.0], [10.0, -20.0, 40.0]])
+                da = xr.DataArray(phi, dims=["x", "zc"], name="temp", coords={"zc": ds.zc})
+                if "y" in dims:
+                    da = xr.concat([da, da * 3 - 1], dim="y")
+                da = da.transpose(*dims)
+                levels = (0.5, 1.0, 2.5, 3.5, 4.0)
+                rec.case(("api-default", zc_vals, dims, mask), True, sample=case)
+                try:
+                    with warnings.catch_warnings():
+                        warnings.simplefilter("ignore")
+                        r = g.transform(da, "Z", np.array(levels), mask_edges=mask)
+                except Exception as e:
+                    rec.violation("api", "default-target-data-raise:" + exc_sig(e), case, "array", f"{type(e).__name__}: {e}"[:200])
+                    continue
+                if set(r.dims) != set(dims):
+                    rec.violation("api", "default-target-data-dims", case, list(dims), list(r.dims))
+                    continue
+                got = (r.isel(y=0) if "y" in dims else r).transpose("x", "zc").values
+                bad = False
+                for c in range(2):
+                    for k, l in enumerate(levels):
+                        w = R.interp_linear(zc_vals, l, mask)
+                        e = np.nan if w is None else float(sum(float(x) * p for x, p in zip(w, phi[c])))
+                        if not np.isclose(got[c, k], e, equal_nan=True):
+                            rec.violation("api", "default-target-data-values", case, e, float(got[c, k]))
+                            bad = True
+                            break
+                    if bad:
+                        break
 
 
 def api_cases(tier):
@@ -312,6 +332,10 @@ def api_cases(tier):
                             out.append((ci, li, tkind, suffix, mask, method, layout, chunk, "f8"))
                         if method == "linear":
                             out.append((ci, li, tkind, None, mask, method, "xz", None, "mixed"))
+                        if tkind != "ndim":
+                            # a 1-D target_data shared by the columns, the axis dimension last and first
+                            out.append((ci, li, tkind, None, mask, method, "xz", None, "shared"))
+                            out.append((ci, li, tkind, None, mask, method, "zx", None, "shared"))
     return out
 
 
@@ -367,4 +391,6 @@ def replay_case(case, seed, rec):
         _API_GRID.clear()
         api_case(rec, case["ci"], case["li"], case["tkind"], case["suffix"], case["mask"], case["method"], case["layout"], case["chunk"], seed, prec=case.get("prec", "f8"))
     else:
+        rec.MAXVIOL = 10 ** 6
         api_default_td(rec, seed)
+        rec.viol = [v for v in rec.viol if {k: v["case"].get(k) for k in ("zc", "dims", "mask")} == {k: case.get(k) for k in ("zc", "dims", "mask")}][:1]
